@@ -212,7 +212,13 @@ func c04Cfg() vrt.Config {
 
 type c04Replay struct {
 	History []string `json:"history"`
+	// BuiltWithChunk: chunk size of the interrupted runs that built the state, when the run to
+	// completion uses another one (0 = the same).
+	BuiltWithChunk uint32 `json:"built_with_chunk,omitempty"`
 }
+
+// c04BuiltWith is set while the completion runs use another chunk size than the state was built with.
+var c04BuiltWith uint32
 
 func modeC04() {
 	res.Rule = "breadth-first search over crash states of the output directory: from every state, kill the receiver at each of its file-system points (split writes included), interrupt it there the way SIGINT does (flush all metadata, then exit), and cut the connection at a stride of byte positions; states deduplicated by content hash; in every reachable state the run to completion must succeed, yield the identical tree and advertise at least the chunks the on-disk metadata marks; non-trivial = distinct crash state"
@@ -374,6 +380,29 @@ func modeC04() {
 			st.add(e)
 			ntrans += e.Execs
 		}
+		// and once more with the sender using another chunk size (flag changed between the runs):
+		// metadata written for the old size describes other byte ranges and must not be applied.
+		for _, oc := range []uint32{8, 3} {
+			p2 := *p
+			p2.Case.Chunk = oc
+			c04BuiltWith = c.Chunk
+			for _, s := range all {
+				if s.Dir == "" || time.Now().After(deadline) {
+					continue
+				}
+				r := &c04Run{from: s}
+				bits := diskBits(&p2, s.Dir)
+				e := &vrt.Explorer{Cfg: c04Cfg(), Bound: 0, Deadline: deadline, Root: func() { runTransfer(&p2, c04Env(&p2, r)) }}
+				e.Visit = func(x *vrt.Exec) bool {
+					checkC04(&p2, s, bits, r, x, last)
+					return true
+				}
+				e.Run()
+				st.add(e)
+				ntrans += e.Execs
+			}
+			c04BuiltWith = 0
+		}
 		nstates += int64(len(all))
 		res.Sample(map[string]any{"case": c.String(), "states": len(all), "example_history": all[len(all)-1].History})
 		os.RemoveAll(stateDir)
@@ -390,7 +419,7 @@ func modeC04() {
 }
 
 func checkC04(p *Prepared, s *crashState, bits map[string][]byte, r *c04Run, x *vrt.Exec, o *Outcome) {
-	rp := replayT{Mode: "c04", Case: p.Case, Choices: append([]int{}, x.Choices()...), Extra: vlib.JSON(c04Replay{s.History})}
+	rp := replayT{Mode: "c04", Case: p.Case, Choices: append([]int{}, x.Choices()...), Extra: vlib.JSON(c04Replay{s.History, c04BuiltWith})}
 	hist := strings.Join(s.History, " -> ")
 	kinds := map[string]bool{}
 	for _, h := range s.History {
@@ -443,6 +472,19 @@ func checkC04(p *Prepared, s *crashState, bits map[string][]byte, r *c04Run, x *
 func replayC04(p *Prepared, rp replayT) {
 	var cr c04Replay
 	vlib.FromJSON(rp.Extra, &cr)
+	if cr.BuiltWithChunk != 0 {
+		// the state was built by runs with another chunk size than the completion uses
+		pb := *p
+		pb.Case.Chunk = cr.BuiltWithChunk
+		c04BuiltWith = cr.BuiltWithChunk
+		replayC04With(&pb, p, rp, cr)
+		return
+	}
+	replayC04With(p, p, rp, cr)
+}
+
+// replayC04With rebuilds the state with p and runs the completion with pfin.
+func replayC04With(p, pfin *Prepared, rp replayT, cr c04Replay) {
 	cur := &crashState{Hash: "empty"}
 	for i, h := range cr.History {
 		if strings.HasPrefix(h, "constructed:") {
@@ -478,6 +520,7 @@ func replayC04(p *Prepared, rp replayT) {
 		cur = &crashState{Hash: hashDir(d), Dir: d, History: cr.History[:i+1], Depth: i + 1}
 	}
 	r := &c04Run{from: cur}
+	p = pfin
 	bits := diskBits(p, cur.Dir)
 	x, err := vrt.Replay(c04Cfg(), rp.Choices, func() { runTransfer(p, c04Env(p, r)) })
 	if err != nil {
